@@ -847,14 +847,15 @@ def hist_oracle(pid, res, driver):
 HIST_STREAM = {"name": "HIST", "quick": 320, "thorough": 8000, "profiles": ["debug", "release"], "augment": True, "release_in_quick": False,
                "nontrivial": lambda c, o: c.count(" ;; ") >= 2 and "err" not in o, "memlimit_kb": 8000000}
 SCR_STREAM = {"name": "SCR", "quick": 1500, "thorough": 40000, "profiles": ["debug", "release"],
-              "nontrivial": lambda c, o: c.split(" ")[2] in ("RICE", "PLANES", "CACHE")}
+              "nontrivial": lambda c, o: c.split(" ")[2] in ("RICE", "PLANES", "CACHE", "QERR")}
 HIST_RULE = ("HIST: histories of 2..6 calls on one long-lived thread, each call one of: stream-level encode + write (single thread), the "
              "same multi-threaded with 2 workers, encode + parse + re-serialise, frame-level encode + write, a write into a failing sink, and - before a third of the calls - POISONING of every thread-local scratch storage with arbitrary contents of arbitrary sizes (hook poison_scratch: fixed-LPC planes, QLPC error buffer, mid/side buffer, Rice finder scratch, estimator float buffers, CRC scratch sinks); half of the histories are "
              "unrelated calls (ENC generator: 1-8 channels, widths 8..24, block sizes shrinking and growing over 32..1152, random verified "
              "configurations), half are the same call repeated with Tukey parameters closer than 2^-16 to each other (0, 2^-16, 0.1, 0.25, "
              "0.5, 0.75, 0.99998 plus 1e-6 .. 1.5e-5). Observable: FNV-1a of the bytes of every call inside the history and of the same call "
              "alone on a fresh thread; the model (no history) must give the same bytes. Non-trivial = three or more successful calls. "
-             "SCR: the scratch clients on explicit stale contents through hooks: PrcParameterFinder::find with stale errors / tables / ps / "
+             "SCR: the scratch clients on explicit stale contents through hooks: compute_error on a reused buffer holding arbitrary stale i32 values "
+             "(QERR: orders 1..12, precision 2..15, shifts 0..15, signals small / 24-25 bit / exactly at the boundary maxabs * sum|coef| = 2^31 - 1 +- 2 between the i32 and the 64-bit path); PrcParameterFinder::find with stale errors / tables / ps / "
              "min_ps of length 0..70 (result and scratch left behind compared with the model), reset_fixed_lpc_errors on stale planes of "
              "0..300 lanes for signals of 0..256 samples incl. 15/16/17/31/32/33 (every lane compared), window-cache lookup sequences of 3..10 "
              "requests with near-equal parameters (cached vs direct), and window_fingerprint over ALL 1,065,353,217 parameter bit patterns "
@@ -863,10 +864,10 @@ HIST_RULE = ("HIST: histories of 2..6 calls on one long-lived thread, each call 
 PROPS["C10"] = {
     "coq": "theories/Props/C10.v",
     "theorems": ["C10_rice_finder_ignores_stale_scratch", "C10_fixed_planes_ignore_stale_scratch", "C10_window_cache_exact",
-                 "C10_colliding_key_leaks"],
+                 "C10_colliding_key_leaks", "C10_qlpc_buffer_ignores_stale_contents"],
     "streams": [HIST_STREAM, SCR_STREAM], "rule": HIST_RULE,
     "oracle": hist_oracle,
-    "assumptions": ["QLPC error buffer, mid/side buffer, estimator float buffers and CRC scratch sinks: no stale-content theorem; covered by the HIST stream "
+    "assumptions": ["mid/side buffer, estimator float buffers and CRC scratch sinks: no stale-content theorem; covered by the HIST stream "
                     "with natural histories AND with arbitrary poisoned contents (poison_scratch hook) before calls",
                     "parse calls are exercised through encode + parse + re-serialise; other threads' histories through the multi-threaded call",
                     "the table scratch of the Rice finder is modelled by its active prefix tables[0..nparts] (the code never indexes beyond it)"],
@@ -1085,7 +1086,7 @@ def run_streams(pid, spec, tier, seed, res, replay_cases=None):
                             res.distinct_nontrivial += 1
                             if len(res.samples) < 6:
                                 res.samples.append({"case": c[:400], "impl": io[:300]})
-                    kind = (io.split(" ") + ["?", "?"])[1]
+                    kind = (io.split(" ") + ["?", "?"])[1].split("=")[0][:24]
                     dist[st["name"] + ":" + kind] = dist.get(st["name"] + ":" + kind, 0) + 1
                 cmpf = st.get("cmp")
                 cmpm = st.get("cmp_model", cmpf)
